@@ -306,7 +306,13 @@ func cmdCheck(prop, tier string, rest []string) int {
 	}
 
 	os.MkdirAll(filepath.Join(e.VerifDir, "replays"), 0755)
-	os.MkdirAll(filepath.Join(e.VerifDir, "evidence"), 0755)
+	evDir := filepath.Join(e.VerifDir, "evidence")
+	if d := os.Getenv("VERIF_EVIDENCE_DIR"); d != "" {
+		// (used by the seed/mutant tooling, which runs the checks on modified
+		// copies of the repository and must not overwrite the evidence files)
+		evDir = d
+	}
+	os.MkdirAll(evDir, 0755)
 	nDis, nFail, nKnown := 0, 0, 0
 	replayByFunc := map[string]*ReplayResult{}
 	var samples []map[string]interface{}
@@ -454,7 +460,7 @@ func cmdCheck(prop, tier string, rest []string) int {
 		},
 	}
 	data, _ := json.MarshalIndent(ev, "", " ")
-	if err := os.WriteFile(filepath.Join(e.VerifDir, "evidence", prop+".json"), data, 0644); err != nil {
+	if err := os.WriteFile(filepath.Join(evDir, prop+".json"), data, 0644); err != nil {
 		return fail(err)
 	}
 	fmt.Printf("%s %s: %d obligations, %d discharged, %d failed, %d known findings, %d functions, %.1fs\n", prop, tier, len(obs), nDis, nFail, nKnown, len(funcs), time.Since(start).Seconds())
